@@ -190,7 +190,7 @@ inline bool past_deadline() { return deadline() > 0 && now_s() > deadline(); }
 struct CrashInfo { std::string step; std::string how; };
 
 inline std::string run_isolated(const std::function<std::string(const std::vector<CrashInfo> &)> &fn,
-		double hang_s = 20.0, int max_retries = 12) {
+		double hang_s = 60.0, int max_retries = 12) {
 	std::vector<CrashInfo> crashes;
 	for(int attempt = 0;; attempt++) {
 		Slot *sl = (Slot *)mmap(nullptr, sizeof(Slot), PROT_READ | PROT_WRITE, MAP_SHARED | MAP_ANONYMOUS, -1, 0);
